@@ -14,6 +14,7 @@ import (
 	pb "github.com/omec-project/upf-epc/pfcpiface/bess_pb"
 	"google.golang.org/grpc"
 	"google.golang.org/grpc/codes"
+	"google.golang.org/grpc/peer"
 	"google.golang.org/grpc/stats"
 	"google.golang.org/grpc/status"
 	"google.golang.org/protobuf/proto"
@@ -102,6 +103,13 @@ type vBess struct {
 	fault     vBessFault
 	conns     int32
 	onCmd     func(n int, c *vBessCmd) // called (unlocked) when a command arrives, before it is applied
+	// killed: client addresses (ip:port of the gRPC transport) whose commands are refused and not
+	// applied any more: from the datapath's point of view that agent incarnation is dead.
+	killed  map[string]bool
+	clients map[string]int // commands seen per client address
+	killAt  int            // if > 0: the client issuing the killAt-th command (since armKill) is killed at that command
+	killCnt int
+	onKill  func(client string)
 }
 
 func vNewBess(addr string) (*vBess, error) {
@@ -139,6 +147,24 @@ func (b *vBess) armFaults(f vBessFault) {
 	b.mu.Lock()
 	b.fault = f
 	b.ncmd = 0
+	b.mu.Unlock()
+}
+
+// killClients marks every client seen so far as dead; armKill(j) kills the issuing client at its j-th next command.
+func (b *vBess) killClients() {
+	b.mu.Lock()
+	if b.killed == nil {
+		b.killed = map[string]bool{}
+	}
+	for c := range b.clients {
+		b.killed[c] = true
+	}
+	b.mu.Unlock()
+}
+
+func (b *vBess) armKill(j int, cb func(client string)) {
+	b.mu.Lock()
+	b.killAt, b.killCnt, b.onKill = j, 0, cb
 	b.mu.Unlock()
 }
 
@@ -260,7 +286,32 @@ func (s *vBessSvc) ModuleCommand(ctx context.Context, req *pb.CommandRequest) (*
 	b := s.b
 	cmd := vBessCmd{Seq: vTick(), Module: req.GetName(), Cmd: req.GetCmd()}
 
+	client := ""
+	if pr, ok := peer.FromContext(ctx); ok && pr.Addr != nil {
+		client = pr.Addr.String()
+	}
 	b.mu.Lock()
+	if b.clients == nil {
+		b.clients = map[string]int{}
+	}
+	b.clients[client]++
+	if b.killAt > 0 && !b.killed[client] {
+		b.killCnt++
+		if b.killCnt == b.killAt {
+			if b.killed == nil {
+				b.killed = map[string]bool{}
+			}
+			b.killed[client] = true
+			b.killAt = 0
+			if b.onKill != nil {
+				go b.onKill(client)
+			}
+		}
+	}
+	if b.killed[client] {
+		b.mu.Unlock()
+		return nil, status.Error(codes.Unavailable, "verif: this agent incarnation was killed")
+	}
 	b.ncmd++
 	n := b.ncmd
 	fail := b.fault.FailAt[n]
